@@ -9,12 +9,9 @@ namespace GuppyVerif.C02.Guards
 
 example := @GuppyVerif.UseDef.no_internal_error
 example := @GuppyVerif.Builder.two_successors_have_pred
-example := @GuppyVerif.Builder.bld_residual
-example := @GuppyVerif.Builder.break_continue_target_innermost_loop
 
 /-- the names checked above are exactly the external theorems of `Guard.theorem` -/
-example : [Guard.useDefNoInternalError, .twoSuccessorsHavePred, .bldResidualNoLifts, .loopBodyHasJumpTargets].map Guard.theorem =
-    ["GuppyVerif.UseDef.no_internal_error", "GuppyVerif.Builder.two_successors_have_pred",
-     "GuppyVerif.Builder.bld_residual", "GuppyVerif.Builder.break_continue_target_innermost_loop"] := rfl
+example : [Guard.useDefNoInternalError, .twoSuccessorsHavePred].map Guard.theorem =
+    ["GuppyVerif.UseDef.no_internal_error", "GuppyVerif.Builder.two_successors_have_pred"] := rfl
 
 end GuppyVerif.C02.Guards
